@@ -37,6 +37,16 @@ Proof.
     rewrite (N.shiftr_div_pow2 i), N.div_small by (exact Hi). rewrite N.lor_0_r. apply lor1_odd_id; exact Ho.
 Qed.
 
+(* both handle encodings give the key back (for the keys a slot map issues: odd version) *)
+Definition enc_roundtrip (E : henc) : Prop :=
+  forall k, kidx k < TWO32 -> kver k < TWO32 -> N.odd (kver k) = true -> h_dec E (h_enc E k) = k.
+
+Lemma enc_transmute_rt : enc_roundtrip enc_transmute.
+Proof. intros k Hi Hv _. apply raw_key_roundtrip; auto. Qed.
+
+Lemma enc_ffi_rt : enc_roundtrip enc_ffi.
+Proof. intros k Hi Hv Ho. apply ffi_key_roundtrip; auto. Qed.
+
 (* ---------------------------------------------------------------------------------------------- *)
 (* sizes of a slot map: number of slots and every version at most B *)
 Section Small.
